@@ -97,6 +97,18 @@ func EncodeFrame(method byte, payload []byte) ([]byte, error) {
 	return out, nil
 }
 
+// EncodeFrameZstd compresses payload into one ZSTD frame with an encoder of
+// the caller's making (level, window, single segment): what other writers of
+// the format than the library's own may produce.
+func EncodeFrameZstd(payload []byte, opts ...zstd.EOption) ([]byte, error) {
+	enc, err := zstd.NewWriter(nil, append([]zstd.EOption{zstd.WithEncoderConcurrency(1)}, opts...)...)
+	if err != nil {
+		return nil, err
+	}
+	defer enc.Close()
+	return RawFrame(MethodZSTD, enc.EncodeAll(payload, nil), uint32(len(payload))), nil
+}
+
 // RawFrame builds a frame with a correct checksum around an arbitrary body: the
 // envelope is honest, the codec stream inside need not be.
 func RawFrame(method byte, body []byte, dataSize uint32) []byte {
